@@ -314,10 +314,7 @@ func (engC14) Exec(s *Script, keepLog bool) (guarded *Result) {
 	runSteps(w, s.Steps, res, func(i int, st *Step) *Violation {
 		if st.Op == "overwriteHeavy" {
 			// the application re-registers the built-in name "utf8-heavy": renders
-			// BY THAT NAME legitimately change; the default style must not
-			if f, ok := firsts["text/utf8-heavy"]; ok && !heavyOverwritten {
-				firsts["text/default"] = f
-			}
+			// BY THAT NAME legitimately change (a new baseline from here on)
 			delete(firsts, "text/utf8-heavy")
 			heavyOverwritten = true
 			decoration.RegisterDecorationName(decoration.D_UTF8_HEAVY, variantDeco(pick(16, st.A)))
@@ -355,6 +352,12 @@ func (engC14) Exec(s *Script, keepLog bool) (guarded *Result) {
 		fname := fmtNames[ro.Spec.Format]
 		if ro.Faulted {
 			w.probe("aborted_render")
+		} else if key == "text/default" {
+			// The application has re-registered the name of the built-in that the
+			// default decoration is made from.  Whether the DEFAULT follows that name
+			// (at wrap time? at render time?) or stays what it was is not stated:
+			// default-decoration renders are not compared across such a history.
+			w.probe("default_decoration_render_after_builtin_overwrite_not_compared")
 		} else {
 			if ro.Err != nil {
 				// Render() returns no text on error while RenderTo leaves what was
